@@ -290,10 +290,27 @@ func (c *Ctx) KEYTRIM(rule string) []report.Obligation {
 		if !ok {
 			continue
 		}
+		// the trimmed text is what the function hands back as the name: its first result, or a field of the
+		// struct it returns
 		isKey := false
 		for _, b := range fn.Blocks {
-			if ret, ok := b.Instrs[len(b.Instrs)-1].(*ssa.Return); ok && len(ret.Results) > 0 && ret.Results[0] == ssa.Value(call) {
+			ret, ok := b.Instrs[len(b.Instrs)-1].(*ssa.Return)
+			if !ok || len(ret.Results) == 0 {
+				continue
+			}
+			if ret.Results[0] == ssa.Value(call) {
 				isKey = true
+			}
+			if ld, isLd := ret.Results[0].(*ssa.UnOp); isLd {
+				if al, isAl := ld.X.(*ssa.Alloc); isAl {
+					for _, r := range *call.Referrers() {
+						if st, isSt := r.(*ssa.Store); isSt {
+							if fa, isFA := st.Addr.(*ssa.FieldAddr); isFA && fa.X == ssa.Value(al) {
+								isKey = true
+							}
+						}
+					}
+				}
 			}
 		}
 		if !isKey {
